@@ -892,17 +892,9 @@ def _oracle_measure(sp, s, o=None):
     return fails
 
 
-def _oracle_length_interval(sp, s):
-    o = gen.mk_object(sp, s['obj'])
-    info = gen.basis_info(s['obj']['bases'][0])
-    a, e = info['start'], info['end']
-    t0 = a if s['t0'] is None else s['t0']
-    t1 = e if s['t1'] is None else s['t1']
-    if not (a <= t0 < t1 <= e):
-        return []
-    with np.errstate(all='ignore'):
-        val = float(o.length(s['t0'], s['t1']))
-    # reference: the same sub-interval on the distinct knots, high order, halves
+def _interval_ref(o, t0, t1):
+    """Reference length of o on [t0,t1], the honest element-wise budget of the code's rule on the
+    spans the code uses for that interval, and whether the reference is trustworthy."""
     ks = [t0] + [k for k in o.knots(0) if t0 < k < t1] + [t1]
     n = max(2 * o.order(0) + 4, 14)
 
@@ -916,19 +908,39 @@ def _oracle_length_interval(sp, s):
     ref, lo, hi = comp(n, 2)
     ref2, _, _ = comp(n + 5, 2)
     R = float(ref2.sum())
-    if not (R > 0) or abs(float(ref.sum()) - R) > 1e-11 * R or lo < 1e-3 * hi:
+    ok = R > 0 and abs(float(ref.sum()) - R) <= 1e-11 * R and lo >= 1e-3 * hi
+    return R, float(np.sum(np.abs(code - ref2))), ok
+
+
+def _oracle_length_interval(sp, s):
+    o = gen.mk_object(sp, s['obj'])
+    info = gen.basis_info(s['obj']['bases'][0])
+    a, e = info['start'], info['end']
+    t0 = a if s['t0'] is None else s['t0']
+    t1 = e if s['t1'] is None else s['t1']
+    if not (a <= t0 < t1 <= e):
         return []
-    budget = float(np.sum(np.abs(code - ref2)))
+    with np.errstate(all='ignore'):
+        val = float(o.length(s['t0'], s['t1']))
+        R, budget, ok = _interval_ref(o, t0, t1)
+    if not ok:
+        return []
     fails = []
     exact_poly = (not o.rational) and o.order(0) == 2
     if abs(val - R) > (0 if exact_poly else 1.000001 * budget) + 1e-9 * R:
         fails.append('length(%r,%r) = %.15g is further from the reference %.15g than the budget %.3g' % (s['t0'], s['t1'], val, R, budget))
-    # additivity over sub-intervals at a knot-free point
+    # additivity over sub-intervals at the midpoint (each part within its own budget)
     m = 0.5 * (t0 + t1)
     with np.errstate(all='ignore'):
         l1, l2 = float(o.length(t0, m)), float(o.length(m, t1))
-    if abs(l1 + l2 - R) > 2.000001 * budget + 1e-9 * R:
-        fails.append('length(t0,m)+length(m,t1) = %.15g differs from length(t0,t1) reference %.15g beyond the budget' % (l1 + l2, R))
+        R1, b1, ok1 = _interval_ref(o, t0, m)
+        R2, b2, ok2 = _interval_ref(o, m, t1)
+    if ok1 and ok2:
+        if abs(R1 + R2 - R) > 1e-9 * R:
+            return fails       # the references themselves are not additive to 1e-9: inconclusive
+        if abs(l1 + l2 - R) > 1.000001 * (b1 + b2) + 1e-9 * R:
+            fails.append('length(t0,m)+length(m,t1) = %.15g differs from the length(t0,t1) reference %.15g beyond the budgets %.3g' % (
+                l1 + l2, R, b1 + b2))
     return fails
 
 
